@@ -152,7 +152,49 @@ def scan_sources():
     if unknown:
         raise TieBroken("vm.rs calls a built-in (FuncV) directly, outside a safepoint, in %s: a blocking built-in reached that way "
                         "is never published to stop-the-world sections" % unknown)
-    return lock_sites, update_sites, blocking, wrapped, bare_native
+    return lock_sites, update_sites, blocking, wrapped, bare_native, scan_spawn(root)
+
+
+def scan_spawn(root):
+    """Order of the steps of spawn_native_thread (threads.rs): heap guard taken in a safepoint and bound to a name,
+    copy of the spawner's state, start of the OS thread, registration in Synchronizer.threads, release of the guard.
+    -> dict of 1-based line numbers (0 = step not found); the model's switch spawn_locked is computed from it in Coq."""
+    rel = "steel_vm/vm/threads.rs"
+    lines = open(os.path.join(root, rel), errors="replace").read().split("\n")
+    start = body = None
+    for i, l in enumerate(lines):          # the variant that starts an OS thread (the other one is the stub without `sync`)
+        if re.search(r"\bfn\s+spawn_native_thread\b", l):
+            end = next((k for k in range(i + 1, len(lines)) if lines[k].startswith("}")), len(lines) - 1)
+            b = [strip_line_comment(x) for x in lines[i:end + 1]]
+            if any("thread::spawn(" in x or "thread::Builder" in x for x in b):
+                start, body = i, b
+                break
+    if start is None:
+        raise TieBroken("threads.rs: fn spawn_native_thread (the variant starting an OS thread) not found")
+
+    def first(rx, frm=0):
+        for k in range(frm, len(body)):
+            if re.search(rx, body[k]):
+                return k
+        return None
+    guard = name = None
+    for k, l in enumerate(body):
+        m = re.search(r"\blet\s+(?:mut\s+)?([A-Za-z_]\w*)\s*=\s*ctx\.thread\.enter_safepoint\(\|\w+\|\s*\w+\.heap\.lock_arc\(\)\)", l)
+        if m and m.group(1) != "_":
+            guard, name = k, m.group(1)
+            break
+    copy = first(r"ctx\.thread\.clone\(\)")
+    spawn = first(r"std::thread::spawn\(|thread::Builder")
+    register = first(r"\.push\(ThreadContext")
+    if copy is None or spawn is None or register is None:
+        raise TieBroken("threads.rs spawn_native_thread: state copy / thread start / registration not recognised: source shape changed")
+    release = None
+    if guard is not None:
+        release = first(r"\bdrop\(\s*%s\s*\)" % re.escape(name), guard)
+        if release is None:
+            release = len(body) - 1          # lives until the function returns
+    ln = lambda k: 0 if k is None else start + k + 1
+    return {"guard": ln(guard), "copy": ln(copy), "start": ln(spawn), "register": ln(register), "release": ln(release)}
 
 
 BARE_VM_ALLOWED = {"call_function", "call_func_or_else", "call_func_or_else_two_args", "call_func_or_else_many_args", "call_cc"}
@@ -162,7 +204,7 @@ def coq_bool(b):
     return "true" if b else "false"
 
 
-def gen_coq(lock_sites, update_sites, blocking, wrapped, bare_native):
+def gen_coq(lock_sites, update_sites, blocking, wrapped, bare_native, spawn):
     def in_scope(s):
         return (s["file"], s["fn"]) not in EXEMPT
     box = [s for s in lock_sites if s["fn"] == "box_handler_c"]
@@ -187,13 +229,22 @@ def gen_coq(lock_sites, update_sites, blocking, wrapped, bare_native):
     out.append(";\n".join('  ("%s", %s, %s)' % (b["name"], coq_bool(b["kind"] in ("function", "native")), coq_bool(b["self_safepoint"])) for b in blocking))
     out.append("].\n")
     out.append("Definition vm_primitive_call_paths_wrapped : nat := %d.\nDefinition native_funcv_call_paths_bare : nat := %d.\n" % (wrapped, bare_native))
+    out.append("(* threads.rs spawn_native_thread, line of each step (0 = absent): heap guard taken in a safepoint and kept in a\n"
+               "   named binding, copy of the spawner's state, start of the OS thread, registration, release of the guard *)\n"
+               "Definition spawn_guard_line : nat := %d.\nDefinition spawn_copy_line : nat := %d.\nDefinition spawn_start_line : nat := %d.\n"
+               "Definition spawn_register_line : nat := %d.\nDefinition spawn_release_line : nat := %d.\n"
+               "Definition spawn_steps_ordered : bool :=\n"
+               "  Nat.ltb 0 spawn_guard_line && Nat.ltb spawn_guard_line spawn_copy_line && Nat.ltb spawn_copy_line spawn_start_line &&\n"
+               "  Nat.ltb spawn_start_line spawn_register_line && Nat.ltb spawn_register_line spawn_release_line.\n"
+               % (spawn["guard"], spawn["copy"], spawn["start"], spawn["register"], spawn["release"]))
     out.append("Definition site_ok (s : string * string * bool * bool * bool) : bool :=\n"
                "  let '(_, _, sp, _, scope) := s in implb scope sp.\n"
                "Definition builtin_ok (b : string * bool * bool) : bool := let '(_, wrapped, self) := b in wrapped || self.\n"
                "Definition regions_ok : bool :=\n  forallb site_ok heap_lock_sites && forallb builtin_ok blocking_builtins && Nat.eqb native_funcv_call_paths_bare 0.\n"
                "Definition gen_config : config :=\n"
                "  {| keep_guard := forallb (fun u => snd u) update_sites && forallb (fun s => let '(_, _, _, dropped, _) := s in negb dropped) heap_lock_sites;\n"
-               "     jit_box_safepoint := forallb (fun s => let '(_, f, sp, _, _) := s in if String.eqb f \"box_handler_c\" then sp else true) heap_lock_sites |}.\n")
+               "     jit_box_safepoint := forallb (fun s => let '(_, f, sp, _, _) := s in if String.eqb f \"box_handler_c\" then sp else true) heap_lock_sites;\n"
+               "     spawn_locked := spawn_steps_ordered |}.\n")
     out.append("(* obligations: one boolean fact per table, checked by computation over the table entries *)\n"
                "Lemma regions_all_ok : regions_ok = true.\nProof. vm_compute. reflexivity. Qed.\n"
                "Lemma gen_config_is_fixed : gen_config = cfg_fixed.\nProof. vm_compute. reflexivity. Qed.\n")
